@@ -39,6 +39,15 @@ Proof.
   intros n npos. exact (istft_stft_seg C (RtoC 0) (RtoC 1) Cplus Cmult Cminus Copp C_ring_theory C_int n npos (W n)
     (W_add n npos) (W_0 n npos) (W_n n npos) (W_prim n npos) (RtoC (/ INR n)) (ninv_C n npos)).
 Qed.
+(* content: a tone at DFT bin k0 of a segment appears with unit amplitude in exactly the sub-channel holding that bin (sub-channel j
+   holds bin (j - P/2) mod P; its label is that bin's frequency by C20_stft_labels) and is zero in every other sub-channel *)
+Theorem C20_stft_tone : forall (n : nat), (0 < n)%nat -> forall (k0 j : nat), (k0 < n)%nat -> (j < n)%nat ->
+  stft_seg C (RtoC 0) Cplus Cmult n (W n) (RtoC (/ INR n)) (tone C (W n) k0) j =
+  if Nat.eq_dec (Z.to_nat (stft_bin (Z.of_nat n) (Z.of_nat j))) k0 then RtoC 1 else RtoC 0.
+Proof.
+  intros n npos. exact (stft_seg_tone C (RtoC 0) (RtoC 1) Cplus Cmult Cminus Copp C_ring_theory C_int n npos (W n)
+    (W_add n npos) (W_0 n npos) (W_n n npos) (W_prim n npos) (RtoC (/ INR n)) (ninv_C n npos)).
+Qed.
 (* fft / ifft of the reference DFT are mutually inverse (the pair the STFT uses) *)
 Theorem C20_ifft_fft : forall (n : nat), (0 < n)%nat -> forall (x : nat -> C) (m : nat), (m < n)%nat ->
   idft C (RtoC 0) Cplus Cmult n (W n) (RtoC (/ INR n)) (dft C (RtoC 0) Cplus Cmult n (W n) x) m = x m.
@@ -54,3 +63,4 @@ Print Assumptions C20_stft_labels.
 Print Assumptions C20_istft_band.
 Print Assumptions C20_ledger.
 Print Assumptions C20_istft_inverts.
+Print Assumptions C20_stft_tone.
